@@ -328,11 +328,81 @@ func routerPublishers(rng *rand.Rand, w *Writer) {
 	w.Count("router.publishers")
 }
 
+// a subscriber that has stopped reading, in the middle of the routing table, with subscribers of the same identifier before
+// and after it that keep reading: once its buffer is full a publication waits for it (10 s in the code) and goes on; every
+// reading subscriber still gets every event once, in order - the one that stalled costs nobody else an event. Takes as long
+// as the router waits, so it runs beside the other cases and is collected at the end.
+func routerStalled(done chan<- string) {
+	const capacity, before, after = 2, 3, 16
+	r := server.NewEventRouter[int, int](capacity)
+	type rd struct {
+		ch  <-chan int
+		got []int
+	}
+	var readers []*rd
+	for i := 0; i < before; i++ {
+		readers = append(readers, &rd{ch: r.Subscribe(7)})
+	}
+	stalled := r.Subscribe(7)
+	for i := 0; i < after; i++ {
+		readers = append(readers, &rd{ch: r.Subscribe(7)})
+	}
+	other := r.Subscribe(8)
+	var wg sync.WaitGroup
+	for _, x := range readers {
+		wg.Add(1)
+		go func(x *rd) {
+			defer wg.Done()
+			for v := range x.ch {
+				x.got = append(x.got, v)
+			}
+		}(x)
+	}
+	const nev = capacity + 1 // the last one finds the stalled subscriber's buffer full
+	t0 := time.Now()
+	for i := 1; i <= nev; i++ {
+		r.Publish(7, i)
+	}
+	waited := time.Since(t0)
+	for _, x := range readers {
+		r.Unsubscribe(x.ch)
+	}
+	wg.Wait()
+	obs := "ok"
+	for i, x := range readers {
+		if len(x.got) != nev {
+			obs = fmt.Sprintf("reading-subscriber-%d-of-%d-got-%v-of-%d-events-(one-subscriber-before-it-had-stopped-reading,-publication-waited-%dms)", i, len(readers), x.got, nev, waited.Milliseconds())
+			break
+		}
+		for j, v := range x.got {
+			if v != j+1 {
+				obs = fmt.Sprintf("reading-subscriber-%d-got-%v", i, x.got)
+			}
+		}
+	}
+	var sg []int
+	r.Unsubscribe(stalled)
+	for v := range stalled {
+		sg = append(sg, v)
+	}
+	if obs == "ok" && (len(sg) != capacity || sg[0] != 1 || sg[1] != 2) {
+		obs = fmt.Sprintf("stalled-subscriber-holds-%v", sg)
+	}
+	select {
+	case v := <-other:
+		obs = fmt.Sprintf("foreign-delivery:%d", v)
+	default:
+	}
+	done <- obs
+}
+
 func suiteC20(rng *rand.Rand, tier string, w *Writer) {
 	n, m := 300, 25
 	if tier == "thorough" {
 		n, m = 6000, 400
 	}
+	stalledDone := make(chan string, 1)
+	go routerStalled(stalledDone)
 	for i := 0; i < n; i++ {
 		routerSeq(rng, w)
 	}
@@ -345,4 +415,7 @@ func suiteC20(rng *rand.Rand, tier string, w *Writer) {
 	for i := 0; i < m/2+4; i++ {
 		routerPublishers(rng, w)
 	}
+	w.Begin("router: a subscriber that stopped reading, readers before and after it")
+	w.Case("routerconc", []string{"k=stalled"}, <-stalledDone)
+	w.Count("router.stalled-subscriber")
 }
